@@ -16,83 +16,9 @@ implementation traces plus trace acceptance of the model (`_partial` in the sens
 import GgrsModel.Properties.C11
 import GgrsModel.Properties.C03
 import GgrsModel.Properties.C04
+import GgrsModel.Proofs.Earliest
 
 namespace Ggrs.SyncLayer
-
-/-- The fold of `check_simulation_consistency` over a list of queues. -/
-def earliest (qs : List InputQueue) (init : Frame) : Frame :=
-  qs.foldl (fun fi q =>
-    let inc := q.firstIncorrectFrame
-    if inc != NULL_FRAME && (fi == NULL_FRAME || inc < fi) then inc else fi) init
-
-theorem earliest_spec : ∀ (qs : List InputQueue) (init : Frame),
-    (earliest qs init = NULL_FRAME ↔ init = NULL_FRAME ∧ ∀ q ∈ qs, q.firstIncorrectFrame = NULL_FRAME) ∧
-    (earliest qs init ≠ NULL_FRAME →
-      (init ≠ NULL_FRAME → earliest qs init ≤ init) ∧
-      (∀ q ∈ qs, q.firstIncorrectFrame ≠ NULL_FRAME → earliest qs init ≤ q.firstIncorrectFrame)) := by
-  intro qs
-  induction qs with
-  | nil =>
-    intro init
-    simp [earliest]
-  | cons q qs ih =>
-    intro init
-    simp only [earliest, List.foldl_cons]
-    by_cases hc : (q.firstIncorrectFrame != NULL_FRAME && (init == NULL_FRAME || decide (q.firstIncorrectFrame < init))) = true
-    · simp only [hc, if_true]
-      have ihq := ih q.firstIncorrectFrame
-      simp only [earliest] at ihq
-      simp only [Bool.and_eq_true, bne_iff_ne, ne_eq, Bool.or_eq_true, beq_iff_eq, decide_eq_true_eq] at hc
-      obtain ⟨hne, hlt⟩ := hc
-      constructor
-      · constructor
-        · intro h0
-          exact absurd (ihq.1.mp h0).1 hne
-        · rintro ⟨_, hall⟩
-          exact absurd (hall q List.mem_cons_self) hne
-      · intro hnn
-        have := ihq.2 hnn
-        constructor
-        · intro hi
-          rcases hlt with h1 | h1
-          · exact absurd h1 hi
-          · exact Int.le_trans (this.1 hne) (Int.le_of_lt h1)
-        · intro q' hq' hq'n
-          rcases List.mem_cons.mp hq' with rfl | hin
-          · exact this.1 hne
-          · exact this.2 q' hin hq'n
-    · simp only [hc, Bool.false_eq_true, if_false]
-      have ihq := ih init
-      simp only [earliest] at ihq
-      have hc' : q.firstIncorrectFrame = NULL_FRAME ∨ (init ≠ NULL_FRAME ∧ ¬ q.firstIncorrectFrame < init) := by
-        by_cases h1 : q.firstIncorrectFrame = NULL_FRAME
-        · exact Or.inl h1
-        · right
-          constructor
-          · intro hi; apply hc; simp [h1, hi]
-          · intro hl; apply hc; simp [h1, hl]
-      constructor
-      · constructor
-        · intro h0
-          have := ihq.1.mp h0
-          refine ⟨this.1, ?_⟩
-          intro q' hq'
-          rcases List.mem_cons.mp hq' with rfl | hin
-          · rcases hc' with h1 | ⟨h1, _⟩
-            · exact h1
-            · exact absurd this.1 h1
-          · exact this.2 q' hin
-        · rintro ⟨hi, hall⟩
-          exact ihq.1.mpr ⟨hi, fun q' hq' => hall q' (List.mem_cons_of_mem _ hq')⟩
-      · intro hnn
-        have := ihq.2 hnn
-        refine ⟨this.1, ?_⟩
-        intro q' hq' hq'n
-        rcases List.mem_cons.mp hq' with rfl | hin
-        · rcases hc' with h1 | ⟨h1, h2⟩
-          · exact absurd h1 hq'n
-          · exact Int.le_trans (this.1 h1) (Int.not_lt.mp h2)
-        · exact this.2 q' hin hq'n
 
 /-- **C01, earliest wrong frame.** The frame handed to the rollback is NULL only if no queue has
 detected a misprediction (and no disconnect rollback is pending); otherwise it is at or below the
